@@ -11,6 +11,11 @@ pub use super::deltas::verif_hooks::interpolate_deltas_fixed;
 pub use super::hint::verif_hooks::hint_arith;
 pub use super::hint::verif_hooks::hint_round_ops;
 
+/// The fixed point vector length used to scale composite component offsets.
+pub fn ft_hypot(x: i32, y: i32) -> i32 {
+    super::ft_hypot(x, y)
+}
+
 /// The counts of an [`Outline`] that determine its memory requirements.
 #[derive(Copy, Clone, Debug, Default, PartialEq, Eq)]
 pub struct OutlineCounts {
